@@ -1132,6 +1132,32 @@ func init() {
 		return &v
 	})
 	reg("(*time.Ticker).Stop", noop)
+	reg("(*time.Ticker).Reset", noop)
+	// timers never fire under the engine (no wall clock): the channel stays empty
+	reg("time.NewTimer", func(fr *frame, a []value) value {
+		t := deref(fr.fn.Signature.Results().At(0).Type())
+		s := zero(t).(structure)
+		s[0] = &vchan{cap: 1}
+		v := value(s)
+		return &v
+	})
+	reg("(*time.Timer).Stop", func(fr *frame, a []value) value { return true })
+	reg("(*time.Timer).Reset", func(fr *frame, a []value) value { return true })
+	reg("time.After", func(fr *frame, a []value) value { return &vchan{cap: 1} })
+	reg("time.Sleep", noop)
+	// sync.Pool without pooling: Get is New() (or nil), Put drops the object
+	reg("(*sync.Pool).Get", func(fr *frame, a []value) value {
+		st := (*(a[0].(*value))).(structure)
+		newFn := st[len(st)-1]
+		if newFn == nil {
+			return iface{}
+		}
+		if f, ok := newFn.(*ssa.Function); ok && f == nil {
+			return iface{}
+		}
+		return call(fr.i, fr, 0, newFn, nil)
+	})
+	reg("(*sync.Pool).Put", noop)
 
 	// ---------------- sync ----------------
 	lk := func(op string) externalFn {
@@ -1180,6 +1206,43 @@ func init() {
 		reg("sync/atomic.Store"+ty, atomicStore)
 		reg("sync/atomic.CompareAndSwap"+ty, atomicCAS)
 	}
+	// atomic.Value / atomic.Pointer-free code: the real implementation works on unsafe pointers; the engine keeps
+	// the stored value in a side table keyed by the Value's address
+	atomicValOf := func(fr *frame, p value) *value {
+		px := fr.i.px
+		if px.atomicVals == nil {
+			px.atomicVals = map[value]*value{}
+		}
+		c := px.atomicVals[p]
+		if c == nil {
+			var z value = iface{}
+			c = &z
+			px.atomicVals[p] = c
+		}
+		return c
+	}
+	reg("(*sync/atomic.Value).Store", func(fr *frame, a []value) value {
+		if v, ok := a[1].(iface); ok && v.t == nil {
+			rtPanic(fr, "sync/atomic: store of nil value into Value")
+		}
+		*atomicValOf(fr, a[0]) = a[1]
+		return nil
+	})
+	reg("(*sync/atomic.Value).Load", func(fr *frame, a []value) value { return *atomicValOf(fr, a[0]) })
+	reg("(*sync/atomic.Value).Swap", func(fr *frame, a []value) value {
+		c := atomicValOf(fr, a[0])
+		old := *c
+		*c = a[1]
+		return old
+	})
+	// escape-analysis helper: pointer -> uintptr -> pointer round trip
+	reg("internal/abi.NoEscape", func(fr *frame, a []value) value { return a[0] })
+	reg("(*strings.Builder).copyCheck", noop)
+	reg("(*strings.Builder).String", func(fr *frame, a []value) value {
+		st := (*(a[0].(*value))).(structure)
+		buf, _ := st[1].([]value)
+		return mkStr(buf)
+	})
 	reg("(*sync.WaitGroup).Add", noop)
 	reg("(*sync.WaitGroup).Done", noop)
 	reg("(*sync.WaitGroup).Wait", noop)
